@@ -53,6 +53,38 @@ def _table(value, leaves, route, lenv=ROLE_ENV):
             if e.enforce('p:x', target, creds):
                 rows.append(list(asg))
         return rows, e.rules['p:x']
+    if route == 'checker':
+        # the oslopolicy-checker tool as the evaluator: the rule in a policy file, the roles in an access file,
+        # the verdict as printed ("passed: p:x" / "failed: p:x")
+        import contextlib
+        import io
+        import os
+        import shutil
+        import tempfile
+        from oslo_policy import shell
+        d = tempfile.mkdtemp(prefix='verif_chk_')
+        try:
+            pf = os.path.join(d, 'policy.json')
+            with open(pf, 'w') as f:
+                json.dump({'p:x': value}, f)
+            rows = []
+            for asg in lang.all_assignments(leaves):
+                target, creds = lenv.env(asg, leaves)
+                af = os.path.join(d, 'access.json')
+                with open(af, 'w') as f:
+                    json.dump({'token': {'roles': [{'name': r, 'id': r} for r in creds['roles']], 'user': {'id': 'u', 'domain': {'id': 'd'}},
+                                         'project': {'id': 'p', 'domain': {'id': 'd'}}}}, f)
+                out = io.StringIO()
+                with contextlib.redirect_stdout(out):
+                    shell.tool(pf, af, 'p:x', False, None)
+                verdicts = [ln.strip() for ln in out.getvalue().splitlines() if ln.strip()]
+                if verdicts == ['passed: p:x']:
+                    rows.append(list(asg))
+                elif verdicts != ['failed: p:x']:
+                    raise RuntimeError('checker printed %r' % (verdicts,))
+            return rows, _parser.parse_rule(value)
+        finally:
+            shutil.rmtree(d, ignore_errors=True)
     if route == 'load':
         rules = policy.Rules.load(json.dumps({'p:x': value}))
         chk = rules['p:x']
